@@ -439,3 +439,70 @@ func VH22g_hold() {
 	rx1.Close()
 	rx2.Close()
 }
+
+// VH22h_inproc_two_addresses: two inproc listeners whose accept loops are
+// busy (slow Attaching hooks), one dial waiting on each address. When either
+// accept loop resumes, the dial waiting for THAT listener completes - whichever
+// waiter the library wakes first, and in either order of resumption (C11 never
+// deadlock, C12 every call completes).
+func VH22h_inproc_two_addresses() {
+	lab := "C11/inproc-two-addresses"
+	type srv struct {
+		sock mangos.Socket
+		gate chan struct{}
+		held int
+	}
+	mk := func(addr string) *srv {
+		s := &srv{sock: vp.New("bus"), gate: make(chan struct{})}
+		s.sock.SetPipeEventHook(func(ev mangos.PipeEvent, p mangos.Pipe) {
+			if ev == mangos.PipeEventAttaching && s.held == 0 {
+				s.held++
+				<-s.gate
+			}
+		})
+		verif.Assert(s.sock.Listen(addr) == nil, lab+"/listen")
+		return s
+	}
+	sx, sy := mk("inproc://two-x"), mk("inproc://two-y")
+	verif.Quiesce()
+	// first connections: both accept loops get stuck in their hooks
+	fx, fy := vp.New("bus"), vp.New("bus")
+	verif.Assert(fx.Dial("inproc://two-x") == nil && fy.Dial("inproc://two-y") == nil, lab+"/first-dials")
+	verif.Quiesce()
+	// second connections have to wait
+	wx, wy := vp.New("bus"), vp.New("bus")
+	var ex, ey error
+	order := verif.Choice("waits-first", 2)
+	var gx, gy *verif.G
+	if order == 0 {
+		gx = verif.Go("dial-x", func() { ex = wx.Dial("inproc://two-x") })
+		verif.Quiesce()
+		gy = verif.Go("dial-y", func() { ey = wy.Dial("inproc://two-y") })
+	} else {
+		gy = verif.Go("dial-y", func() { ey = wy.Dial("inproc://two-y") })
+		verif.Quiesce()
+		gx = verif.Go("dial-x", func() { ex = wx.Dial("inproc://two-x") })
+	}
+	verif.Quiesce()
+	verif.Assert(!gx.Done() && !gy.Done(), lab+"/dial-completed-although-nobody-accepts")
+	// one accept loop resumes
+	if verif.Choice("resumes-first", 2) == 0 {
+		close(sx.gate)
+		verif.Quiesce()
+		verif.Assert(gx.Done() && ex == nil, lab+"/dial-still-waiting-although-its-listener-accepts")
+		close(sy.gate)
+	} else {
+		close(sy.gate)
+		verif.Quiesce()
+		verif.Assert(gy.Done() && ey == nil, lab+"/dial-still-waiting-although-its-listener-accepts")
+		close(sx.gate)
+	}
+	verif.Quiesce()
+	verif.Assert(gx.Done() && gy.Done() && ex == nil && ey == nil, lab+"/dial-still-waiting-although-its-listener-accepts")
+	verif.Reach("both-connected")
+	for _, s := range []mangos.Socket{sx.sock, sy.sock, fx, fy, wx, wy} {
+		s.Close()
+	}
+	verif.Quiesce()
+	verif.Assert(verif.LiveGoroutines() == 0, "C10/inproc/goroutines-left-after-close")
+}
